@@ -287,6 +287,12 @@ func tryFindPrefix(node *RegexNode, vsb *bytes.Buffer) bool {
 				// and the smallest amount of prefix that overlapped with all
 				// the previously seen branches.
 				addedLength = commonPrefixLen(vsbSlice[:addedLength], alternateSb.Bytes())
+
+				// The comparison is on UTF-8 bytes: two different runes can share their
+				// leading bytes. Don't keep part of a rune.
+				for addedLength > 0 && addedLength < len(vsbSlice) && !utf8.RuneStart(vsbSlice[addedLength]) {
+					addedLength--
+				}
 			}
 
 			// Then cull back on what was added based on the other branches.
